@@ -97,12 +97,11 @@ def _alarm(signum, frame):
     raise RunTimeout()
 
 
-def _guarded_execute(mach, run, props, timeout_s):
-    """execute() under a wall-clock watchdog.  Returns (result, harness_error)."""
+def _attempt(fn, timeout_s):
     old = signal.signal(signal.SIGALRM, _alarm)
     signal.setitimer(signal.ITIMER_REAL, timeout_s)
     try:
-        return mach.execute(run, props), None
+        return fn(), None
     except RunTimeout:
         return None, "timeout"
     except RecursionError:
@@ -112,6 +111,23 @@ def _guarded_execute(mach, run, props, timeout_s):
     finally:
         signal.setitimer(signal.ITIMER_REAL, 0)
         signal.signal(signal.SIGALRM, old)
+
+
+def _guarded_execute(mach, run, props, timeout_s):
+    """execute() under a wall-clock watchdog.  Returns (result, harness_error).
+
+    The watchdog is a trigger, not an oracle: a run that trips it is re-judged
+    by the machine's execute_traced() under a deterministic line-event budget.
+    Only if that attempt does not return either (time spent inside one call that
+    executes no Python line, e.g. a regular expression that backtracks without
+    end) does the machine's stuck_result() turn the lack of progress itself into
+    the verdict."""
+    res, err = _attempt(lambda: mach.execute(run, props), timeout_s)
+    if err == "timeout" and hasattr(mach, "execute_traced"):
+        res, err = _attempt(lambda: mach.execute_traced(run, props), timeout_s * 3)
+        if err == "timeout":
+            res, err = mach.stuck_result(run, props, timeout_s * 4), None
+    return res, err
 
 
 def work_chunk(args):
@@ -125,7 +141,7 @@ def work_chunk(args):
         "precondition_miss": 0, "skipped": 0,
         "violations": {},      # signature -> (index, run, violation)
         "viol_count": Counter(),
-        "harness_errors": [], "samples": [], "digest": hashlib.sha256(),
+        "harness_errors": [], "samples": [], "digest": hashlib.sha256(), "hang": False,
     }
     for index in range(start, start + count):
         rng = random.Random(run_seed(verif_seed, machine, prop, tier, index))
@@ -136,9 +152,6 @@ def work_chunk(args):
             continue
         run["machine"] = machine
         res, err = _guarded_execute(mach, run, (prop,), run_timeout)
-        if err == "timeout" and hasattr(mach, "on_timeout"):
-            # deterministic re-judgement of a suspected hang (C01)
-            res, err = mach.on_timeout(run, (prop,)), None
         if err is not None:
             agg["harness_errors"].append((index, err))
             continue
@@ -158,12 +171,18 @@ def work_chunk(args):
         agg["digest"].update(res.digest().encode())
         if len(agg["samples"]) < 2 and res.nontrivial:
             agg["samples"].append({"run_index": index, "config": run.get("config"), "ops": run["ops"][:12]})
+        hang = False
         for v in res.violations:
             if v["property"] != prop:
                 continue
             agg["viol_count"][v["signature"]] += 1
             if v["signature"] not in agg["violations"]:
                 agg["violations"][v["signature"]] = (index, run, v)
+            hang = hang or v["clause"] == "hang"
+        if hang:
+            agg["hang"] = True
+            agg["count"] = index - start + 1   # a hanging run costs minutes: give up on the rest of this chunk
+            break
     faulthandler.cancel_dump_traceback_later()
     agg["digest"] = agg["digest"].hexdigest()[:16]
     # sets of tuples pickle fine; shrink states to stable short hashes
@@ -219,9 +238,7 @@ def replay(prop, path):
         body = json.load(f)
     mach = get_machine(body["machine"])
     run = {"machine": body["machine"], "config": body.get("config"), "ops": body["ops"]}
-    res, err = _guarded_execute(mach, run, (prop,), 600)
-    if err == "timeout" and hasattr(mach, "on_timeout"):
-        res, err = mach.on_timeout(run, (prop,)), None
+    res, err = _guarded_execute(mach, run, (prop,), 60)
     if err is not None:
         print(f"HARNESS-ERROR replay of {path}: {err}")
         return EXIT_HARNESS
@@ -295,6 +312,8 @@ def run_check(prop, machine, tier, verif_seed, total_runs, chunk, budget_s, run_
                     a = pending.pop(f)
                     try:
                         results[a[4]] = f.result()
+                        if results[a[4]].get("hang"):
+                            budget_s = 0      # a hang was found: stop handing out work, report
                     except Exception as e:  # BrokenProcessPool etc.
                         harness_errors.append((a[4], f"worker died: {e!r}"))
                 submit_more()
@@ -333,9 +352,7 @@ def run_check(prop, machine, tier, verif_seed, total_runs, chunk, budget_s, run_
     for sig in sorted(violations):
         index, run, v = violations[sig]
         # confirm by re-execution in the parent from the op list alone
-        res, err = _guarded_execute(mach, run, (prop,), max(run_timeout, 60))
-        if err == "timeout" and hasattr(mach, "on_timeout"):
-            res, err = mach.on_timeout(run, (prop,)), None
+        res, err = _guarded_execute(mach, run, (prop,), run_timeout)
         if err is not None:
             harness_errors.append((index, f"confirming {sig}: {err}"))
             continue
